@@ -8,6 +8,9 @@ made under which match-arm constraints, with which argument provenance; which
 stores happen before which calls; what is returned).
 """
 
+ADAPTERS = {"std::result::Result::<T, E>::map": ("Ok", "Err", "std::result::Result"),
+            "std::option::Option::<T>::map": ("Some", "None", "std::option::Option")}
+CLOSURE_CALLS = ("std::ops::FnMut::call_mut", "std::ops::FnOnce::call_once", "std::ops::Fn::call")
 TRANSPARENT_TRY = "std::ops::Try::branch"
 FROM_RESIDUAL = "std::ops::FromResidual::from_residual"
 
@@ -192,6 +195,13 @@ class Walker:
                         t = x[1]
                     else:
                         t = ("okval", x) if t[2] == "Continue" else ("residual", x)
+                    continue
+                if t[0] == "variant" and t[2] in ("Ok", "Some") and idx == 0 and isinstance(t[1], tuple) and t[1] and t[1][0] in ("ret", "maperr"):
+                    # `match r { Ok(v) => .. }` names the payload that `r?` names
+                    x = t[1]
+                    while x[0] == "maperr":
+                        x = x[1]
+                    t = ("okval", x)
                     continue
                 t = ("field", t, name)
             elif isinstance(e, dict) and "downcast" in e:
@@ -401,9 +411,21 @@ class Walker:
             if k == "call":
                 fname, resolved = callee_name(t["func"])
                 args = tuple(self.operand(st, a) for a in t["args"])
+                fn_args = tuple(t["func"].get("fn_args", []))
                 if fname is None:
                     fterm = self.operand(st, t["func"])
                     fname = "<indirect>"
+                    ft = self.resolve_locals(st, fterm)
+                    while isinstance(ft, tuple) and ft and ft[0] == "coerce":
+                        ft = ft[1]
+                    if isinstance(ft, tuple) and ft and ft[0] == "fnitem":
+                        # a call through a function pointer whose value is a known function item is a call of that function
+                        fname = resolved = ft[1]
+                        fn_args = tuple(ft[2]) if len(ft) > 2 and ft[2] else ()
+                    elif isinstance(ft, tuple) and ft and ft[0] == "agg" and ft[1] == "closure":
+                        # a non-capturing closure coerced to a function pointer: the call is a call of the closure
+                        fname, resolved = "std::ops::Fn::call", None
+                        args = (("ref", ft), ("tuple", args))
                 else:
                     fterm = None
                 dest = t["dest"]
@@ -419,7 +441,7 @@ class Walker:
                     st["ncall"] += 1
                     res = ("ret", st["ncall"], fname)
                     rargs = tuple(self.resolve_locals(st, a) for a in args)
-                    ev = ("call", fname, args, res, resolved, t.get("line"), fterm, tuple(t["func"].get("fn_args", [])), rargs,
+                    ev = ("call", fname, args, res, resolved, t.get("line"), fterm, fn_args, rargs,
                           self.body.local_ty(dest["l"]) if not dest["proj"] else None)
                     self.add_event(st, ev)
                     forks = self.call_hook(st, t, fname, resolved, args)
@@ -542,6 +564,67 @@ class Walker:
         if t[0] in ("ref", "deref", "coerce", "cast"):
             return (t[0], self.resolve_locals(st, t[1], depth + 1)) + t[2:]
         return t
+
+    def closure_target(self, st, fname, args):
+        """(closure body, arguments) when this is a call of a closure whose value is known on the path (the closure was built in
+        a caller that is being walked in context): Fn*/call* with a receiver that evaluates to a closure aggregate"""
+        facts = getattr(self, "facts", None)
+        if facts is None or fname not in CLOSURE_CALLS or len(args) != 2:
+            return None
+        v = self.resolve_locals(st, args[0])
+        for _ in range(6):
+            if isinstance(v, tuple) and v and v[0] in ("ref", "deref", "coerce"):
+                v = v[1]
+            elif isinstance(v, tuple) and v and v[0] == "local" and v in st["mem"]:
+                v = st["mem"][v]
+            else:
+                break
+        if not (isinstance(v, tuple) and v and v[0] == "agg" and v[1] == "closure"):
+            return None
+        bl = facts.by_path.get(v[2], [])
+        tup = args[1]
+        if len(bl) != 1 or not bl[0].get("blocks") or not (isinstance(tup, tuple) and tup and tup[0] == "tuple"):
+            return None
+        # captured references to this body's locals are read through: the closure body sees the values they hold now
+        v = v[:4] + (tuple(self.resolve_locals(st, c) for c in v[4]),) + v[5:]
+        l1 = bl[0]["locals"][1]["ty"] if len(bl[0].get("locals", [])) > 1 else ""
+        a0 = ("ref", v) if str(l1).startswith("&") else v          # (call_once of an Fn/FnMut closure goes through a by-reference shim)
+        return bl[0], (a0,) + tuple(tup[1])
+
+    def adapter_forks(self, st, fname, args):
+        """Result::map / Option::map with a closure whose value is known: the closure body is walked on the Ok/Some payload, the
+        other variant passes through (std docs)"""
+        ad = ADAPTERS.get(fname)
+        if ad is None or len(args) != 2 or not hasattr(self, "inline_call"):
+            return None
+        okv, errv, adt = ad
+        r = args[0]
+        if not isinstance(r, tuple) or not r:
+            return None
+        known = r[3] if (r[0] == "agg" and r[1] == "adt") else None
+        payload = r[4][0] if known == okv and r[4] else ("okval", r)
+        ct = self.closure_target(st, "std::ops::FnOnce::call_once", (args[1], ("tuple", (payload,))))
+        if ct is None:
+            return None
+        out = []
+        if known in (None, okv):
+            s_ok = self.fork(st)
+            if known is None:
+                self.add_cons(s_ok, (("discr", r), "==", 0))
+            if known is not None or self.state_feasible(s_ok):
+                for fk in self.inline_call(s_ok, ct[0], ct[1]):
+                    fk = dict(fk)
+                    fk["res"] = ("agg", "adt", adt, okv, (fk.get("res"),), ("0",))
+                    out.append(fk)
+        if known in (None, errv):
+            s_er = self.fork(st)
+            if known is None:
+                self.add_cons(s_er, (("discr", r), "==", 1))
+                e = ("agg", "adt", adt, errv, ((("field", ("variant", r, errv), "0"),) if errv == "Err" else ()), (("0",) if errv == "Err" else ()))
+            else:
+                e = r
+            out.append({"state": s_er, "res": e})
+        return out
 
     def branch_feasible(self, st, d, op, v):
         return True
@@ -709,6 +792,12 @@ class InlineWalker(Walker):
     def call_hook(self, st, t, fname, resolved, args):
         if self.depth >= 4:
             return None
+        ct = self.closure_target(st, fname, args)
+        if ct is not None:
+            return self.inline_call(st, ct[0], ct[1])
+        af = self.adapter_forks(st, fname, args)
+        if af is not None:
+            return af
         for nm in (resolved, fname):
             if not nm:
                 continue
